@@ -19,7 +19,7 @@ def cfg_fn(rng):
     cfg = dc.base_cfg(rng)
     cfg["scale"] = rng.choice([2, 3, 4])
     cfg["max_facts"] = rng.choice([40, 80, 160])
-    cfg["p_eqrel"] = 0.0
+    cfg["p_eqrel"] = 0.35         # eqrel relations are scanned in parallel through EquivalenceRelation::partition
     return cfg
 
 
